@@ -4,6 +4,7 @@ import (
 	"context"
 	"errors"
 	"fmt"
+	"net"
 	"sort"
 	"time"
 
@@ -18,16 +19,17 @@ import (
 type ctxIO struct {
 	read  func(ctx context.Context, b []byte) (int, error)
 	write func(ctx context.Context, b []byte) (int, error)
+	close func() error
 }
 
 func wrapCtx(kind string, f *fakeConn) ctxIO {
 	switch kind {
 	case "netctx.Conn":
 		c := netctx.NewConn(f)
-		return ctxIO{c.ReadContext, c.WriteContext}
+		return ctxIO{c.ReadContext, c.WriteContext, c.Close}
 	case "connctx":
 		c := connctx.New(f)
-		return ctxIO{c.ReadContext, c.WriteContext}
+		return ctxIO{c.ReadContext, c.WriteContext, c.Close}
 	case "netctx.PacketConn":
 		c := netctx.NewPacketConn(f)
 		return ctxIO{
@@ -36,6 +38,7 @@ func wrapCtx(kind string, f *fakeConn) ctxIO {
 				return n, err
 			},
 			func(ctx context.Context, b []byte) (int, error) { return c.WriteToContext(ctx, b, fakeAddr("peer")) },
+			c.Close,
 		}
 	}
 	panic(kind)
@@ -473,6 +476,101 @@ func c17bothDirections(kind string, bound int) *explore.Scenario {
 	return sc
 }
 
+// c17closing: the "cancel(); conn.Close()" idiom - an operation is in flight, its context is cancelled and
+// the connection is closed (by this side through the wrapper, or by the peer), in either order and at every
+// point.  The operation returns, Close returns, and a later operation with a live context fails promptly
+// instead of hanging.
+func c17closing(kind, dir string, peerCloses bool, bound int) *explore.Scenario {
+	name := fmt.Sprintf("%s %s in flight, cancelled and closed", kind, dir)
+	if peerCloses {
+		name += " by the peer"
+	}
+	packet := kind == "netctx.PacketConn"
+	sc := &explore.Scenario{Name: name, Bound: bound}
+	sc.Cfg.Horizon = 10 * time.Second
+	sc.Make = func() (func(), func(*zzvsched.Exec) (string, *explore.Violation)) {
+		var n1, n2 int
+		var e1, e2 error
+		op1done, op2done, closeDone, cancelled := false, false, false, false
+		body := func() {
+			capa := 4
+			if packet {
+				capa = 1
+			}
+			a, b := newFakePair(packet, capa)
+			w := wrapCtx(kind, a)
+			ctx1, cancel1 := zzvsched.WithCancel()
+			ctx2, _ := zzvsched.WithCancel()
+			zzvsched.GoNamed("op", func() {
+				if dir == "read" {
+					n1, e1 = w.read(ctx1, make([]byte, 8))
+				} else {
+					n1, e1 = w.write(ctx1, []byte("abcdefgh")) // more than the pipe holds: blocks
+					if packet && e1 == nil {
+						n1, e1 = w.write(ctx1, []byte("second")) // the one-datagram queue is full now
+					}
+				}
+				op1done = true
+			})
+			zzvsched.GoNamed("canceller", func() {
+				cancel1()
+				cancelled = true
+			})
+			zzvsched.GoNamed("closer", func() {
+				if peerCloses {
+					_ = b.Close()
+				} else {
+					_ = w.close()
+				}
+				closeDone = true
+			})
+			zzvsched.WaitIdle()
+			if !peerCloses && op1done && closeDone {
+				// the connection is closed: an operation with a live context must fail at once, not hang
+				zzvsched.GoNamed("probe", func() {
+					if dir == "read" {
+						n2, e2 = w.read(ctx2, make([]byte, 8))
+					} else {
+						n2, e2 = w.write(ctx2, []byte("zz"))
+					}
+					op2done = true
+				})
+			} else {
+				op2done = true
+				e2 = net.ErrClosed
+			}
+		}
+		check := func(ex *zzvsched.Exec) (string, *explore.Violation) {
+			out := fmt.Sprintf("op=(%d,%v) probe=(%d,%v)", n1, errShort(e1), n2, errShort(e2))
+			pre := name + ": "
+			if len(ex.Panics) > 0 {
+				return out, &explore.Violation{Sig: "C17 panic", Msg: pre + "panic: " + ex.Panics[0].Value + "\n" + ex.Panics[0].Stack}
+			}
+			if ex.HorizonHit {
+				return out + " HORIZON", nil
+			}
+			if !closeDone {
+				return out, &explore.Violation{Sig: "C17 close-blocked " + kind, Msg: pre + fmt.Sprintf("Close never returned: %v", ex.Parked)}
+			}
+			if !op1done && cancelled {
+				return out, &explore.Violation{Sig: "C17 cancelled-op-still-blocked " + kind, Msg: pre + fmt.Sprintf("the context was cancelled and the connection closed, but the %s never returned: %v", dir, ex.Parked)}
+			}
+			if op1done && isCtxErr(e1) && n1 != 0 && !(dir == "write" && packet) {
+				return out, &explore.Violation{Sig: "C17 ctx-error-with-bytes " + kind, Msg: pre + fmt.Sprintf("operation returned the context error together with n=%d", n1)}
+			}
+			if !op2done {
+				return out, &explore.Violation{Sig: "C17 probe-blocked " + kind, Msg: pre + fmt.Sprintf("after Close, a %s with a live context never returned: %v", dir, ex.Parked)}
+			}
+			if e2 == nil {
+				return out, &explore.Violation{Sig: "C17 probe-succeeded-on-closed " + kind, Msg: pre + fmt.Sprintf("after Close, a %s with a live context succeeded (n=%d)", dir, n2)}
+			}
+			return out, nil
+		}
+		return body, check
+	}
+	return sc
+}
+
 func isCtxErr(err error) bool {
 	return errors.Is(err, context.Canceled) || errors.Is(err, context.DeadlineExceeded)
 }
@@ -515,10 +613,11 @@ func init() {
 					if d == "read" {
 						out = append(out, c17bothDirections(k, cb))
 					}
+					out = append(out, c17closing(k, d, false, cb), c17closing(k, d, true, cb))
 				}
 			}
 			return out
 		},
-		Rule:        "for netctx.Conn, netctx.PacketConn and connctx over a scheduler-visible pipe (4-byte stream buffer with partial writes / 1-datagram queue): one context-controlled read or write whose context is cancelled by a separate thread at every possible point (before, during, after), a peer thread, then a probe operation with a live context; also two threads operating on the same wrapped connection concurrently, one context cancelled and one live; a read and a write on the same wrapped connection concurrently with both contexts cancelled by separate threads; every interleaving within the deviation bound (thorough: unbounded, the whole interleaving space is closed by the state cache)",
+		Rule:        "for netctx.Conn, netctx.PacketConn and connctx over a scheduler-visible pipe (4-byte stream buffer with partial writes / 1-datagram queue): one context-controlled read or write whose context is cancelled by a separate thread at every possible point (before, during, after), a peer thread, then a probe operation with a live context; also two threads operating on the same wrapped connection concurrently, one context cancelled and one live; a read and a write on the same wrapped connection concurrently with both contexts cancelled by separate threads; an operation in flight whose context is cancelled while the connection is closed (through the wrapper or by the peer), followed by a probe on the closed connection; every interleaving within the deviation bound (thorough: unbounded, the whole interleaving space is closed by the state cache)",
 		Assumptions: []string{"the wrapped connection is the harness's fake with exact deadline semantics (a passed deadline fails the blocked and every later operation until reset)"}})
 }
